@@ -670,6 +670,8 @@ impl Check for C05 {
                 let cl = &c.client;
                 if !super::common::conn_domain_ok(c) || !matches!(cl.intent, 2 | 3) || cl.script.is_some() || !cl.mutations.is_empty() || !matches!(cl.enc, crate::client::EncVariant::Honest) || !cl.send_info
                     || cl.close_after.is_some() || cl.mute_after.is_some() || cl.shared_secret.len() != 16 || cl.protocol <= 0 || !matches!(cl.ka_default, crate::client::KaPolicy::Prompt) || !cl.ka.is_empty()
+                    || cl.extras.iter().any(|x| !x.after_ack || x.id != 0x02 || !matches!(&x.body, crate::client::Body::Raw { bytes } if bytes.starts_with(b"\x0fminecraft:brand")))
+                    || (!cl.extras.is_empty() && !cl.early_ack)
                     || c.services.discovery.default.lat_ns != Some(0) || !c.services.discovery.calls.is_empty() || !matches!(&c.services.discovery.default.res, DiscRes::Targets(t) if !t.is_empty())
                 {
                     return RunReport::default();
